@@ -327,12 +327,14 @@ theorem runInc_guarded_file (ev : ε → Defs β → Except Diag Bool) (fs : FS 
             | text t => rw [h0, h1] at hg; simp [detectGuard] at hg
             | undef n x => rw [h0, h1] at hg; simp [detectGuard] at hg
             | error => rw [h0, h1] at hg; simp [detectGuard] at hg
+            | bad => rw [h0, h1] at hg; simp [detectGuard] at hg
             | other => rw [h0, h1] at hg; simp [detectGuard] at hg
           | opens h => rw [h0, h1] at hg; simp [detectGuard] at hg
           | part h => rw [h0, h1] at hg; simp [detectGuard] at hg
           | endif x => rw [h0, h1] at hg; simp [detectGuard] at hg
       | ifE c => rw [h0] at hg; simp [detectGuard] at hg
       | ifdef n x => rw [h0] at hg; simp [detectGuard] at hg
+      | noName => rw [h0] at hg; simp [detectGuard] at hg
     | plain p => rw [h0] at hg; simp [detectGuard] at hg
     | part h => rw [h0] at hg; simp [detectGuard] at hg
     | endif x => rw [h0] at hg; simp [detectGuard] at hg
